@@ -24,7 +24,7 @@ def rand_text(rng, nmax):
 class C19(Prop):
     id = "C19"
     prop_file = "Props/C19.v"
-    rule = ("boundary and random interior values of each integer type, random non-NaN float/double bit patterns, random IPv4/IPv6 addresses, "
+    rule = ("boundary and random interior values of each integer type, random non-NaN float/double bit patterns plus the edges of both ranges (zeros, subnormals, largest finite values, infinities), random IPv4/IPv6 addresses, "
             "Unicode strings mixing 1-4 byte code points (String, VarString), byte strings of length 0..255 (VarBytes), all bit positions x "
             "random bytes (BitArray), each followed by random trailing bytes; observed to_bytes(), from_bytes().value, .size.  Non-trivial = "
             "value representable; distinct by (type, value, trailing).")
@@ -40,6 +40,13 @@ class C19(Prop):
             vals = [v for v in vals if lo <= v <= hi] + [rng.randrange(lo, hi + 1) for _ in range(n // 16)]
             for v in vals:
                 cases.append({"kind": name, "v": v, "trailing": tr()})
+        # the edges of the binary32 / binary64 ranges: zeros, smallest and largest subnormals and normals, the infinities
+        for sign in (0, 1):
+            for b in (0x00000000, 0x00000001, 0x007FFFFF, 0x00800000, 0x00800001, 0x3F800000, 0x7F7FFFFD, 0x7F7FFFFE, 0x7F7FFFFF, 0x7F800000):
+                cases.append({"kind": "Float", "v": b | (sign << 31), "trailing": tr()})
+            for d in (0, 1, (1 << 52) - 1, 1 << 52, 0x3FF0000000000000, 0x47EFFFFFE0000000, 0x7FEFFFFFFFFFFFFE, 0x7FEFFFFFFFFFFFFF,
+                      0x7FF0000000000000):
+                cases.append({"kind": "Double", "v": d | (sign << 63), "trailing": tr()})
         for _ in range(n):
             b = rng.getrandbits(32)
             if (b >> 23) & 0xFF == 0xFF and b & 0x7FFFFF:
